@@ -17,7 +17,13 @@ func verifNewSerializer() *Serializer {
 
 func verifHarness_Z1_RoundTrip() {
 	T := nondetSize("T")
-	pj, root := verifGenDoc(verifCfgSer(verifChoice("inmsg", 2) == 1), T)
+	cfg := verifCfgSer(verifChoice("inmsg", 2) == 1)
+	if verifChoice("cfg", 2) == 1 {
+		// string-heavy shapes: flat arrays of strings (lengths 0/1/2) and NOP runs, so that several strings
+		// (equal, prefix-related, colliding) fit into a small tape
+		cfg.objects, cfg.nums, cfg.ones, cfg.maxDepth, cfg.strLen, cfg.strLen2 = false, false, false, 0, 1, 2
+	}
+	pj, root := verifGenDoc(cfg, T)
 	s := verifNewSerializer()
 	var dst *ParsedJson
 	if verifChoice("havoc", 2) == 1 {
